@@ -37,7 +37,9 @@ class ExoTransmitOpacity(InterpolatingOpacity):
             interpolation_mode=interpolation_mode)
 
         self._filename = filename
-        self._molecule_name = pathlib.Path(filename).stem[4:]
+        from taurex.util.util import sanitize_molecule_string
+        self._molecule_name = sanitize_molecule_string(
+            pathlib.Path(filename).stem[4:])
         self._load_exo_transmit(filename)
 
     def _load_exo_transmit(self, filename):
